@@ -294,15 +294,16 @@ int main(int argc, char **argv)
     Space<3> s3;
     s3.build(vr::thorough() ? G7 : G5, G5, G5);
     std::vector<TR> all = trs;
-    if (vr::thorough()) {
-      all.push_back(t3);
+    if (vr::thorough())
       all.push_back(t4);
-    } else
+    else
       all.pop_back();  // quick: default and [0.25,1.5]
     sweep<float, 3>("f3", s3, all);
-    if (vr::thorough())
-      sweep<double, 3>("d3", s3, all);
-    else {
+    if (vr::thorough()) {
+      Space<3> s3d;
+      s3d.build(G5, G5, G5);
+      sweep<double, 3>("d3", s3d, trs);
+    } else {
       Space<3> s3d;
       const double g3[] = {-1, 0, 1};
       s3d.build(G5, std::vector<double>(g3, g3 + 3), G5);
